@@ -454,8 +454,8 @@ def write_json(path, obj):
     os.replace(tmp, path)
 
 
-def run(cmd, cwd=None, timeout=None):
+def run(cmd, cwd=None, timeout=None, env=None):
     t = time.time()
     p = subprocess.run(cmd, cwd=cwd, stdout=subprocess.PIPE, stderr=subprocess.STDOUT, text=True,
-                       timeout=timeout)
+                       timeout=timeout, env=env)
     return p.returncode, p.stdout, time.time() - t
